@@ -413,7 +413,7 @@ func (w *atomWalker) stmt(st lockState, s ast.Stmt) lockState {
 }
 
 var atomicFuncs = []struct{ pkg, fn string }{
-	{"client", "Client.send"}, {"client", "Client.input"}, {"client", "Client.call"}, {"client", "Client.Close"},
+	{"client", "Client.send"}, {"client", "Client.input"}, {"client", "Client.call"}, {"client", "Client.Close"}, {"client", "Client.SendRaw"},
 	{"server", "Server.Shutdown"}, {"server", "Server.Close"}, {"server", "Server.processOneRequest"}, {"server", "Server.closeDoneChanLocked"},
 }
 
@@ -426,7 +426,7 @@ func leanStrList(xs []string) string {
 }
 
 var atomFnCtor = map[string]string{
-	"client.Client.send": ".clientSend", "client.Client.input": ".clientInput", "client.Client.call": ".clientCall", "client.Client.Close": ".clientClose",
+	"client.Client.send": ".clientSend", "client.Client.input": ".clientInput", "client.Client.call": ".clientCall", "client.Client.Close": ".clientClose", "client.Client.SendRaw": ".clientSendRaw",
 	"server.Server.Shutdown": ".serverShutdown", "server.Server.Close": ".serverClose", "server.Server.processOneRequest": ".serverProcessOne",
 }
 
